@@ -139,7 +139,6 @@ const (
 	classAdmin  = 3 // +index
 )
 
-
 // runScenario executes sc inside a fresh synctest bubble against the real
 // library and returns the recorded history.
 func runScenario(t *testing.T, sc *Scenario) (h *History) {
